@@ -1,12 +1,13 @@
 """C06 — a committed delete leaves no trace of the entity's id."""
 from . import common
 from . import c03_c06_lib as lib
+from . import universe
 
 MODULE = "StorageModel.Properties.C06"
 THEOREMS = ["inv_init", "inv_step", "inv_tx", "inv_reachable", "absent_no_trace", "delete_no_trace",
-            "delete_no_trace_owner", "cascade_no_trace", "boss_cascade_no_trace", "tx_removed_no_trace", "delete_terminates", "delete_forgets", "recreate_fresh", "recreate_accepted_iff", "recreate_absent_accepted_iff",
+            "delete_no_trace_owner", "cascade_no_trace", "boss_cascade_no_trace", "tx_removed_no_trace", "delete_terminates", "restrict_refuses", "no_fk_names_absent", "delete_forgets", "recreate_fresh", "recreate_accepted_iff", "recreate_absent_accepted_iff",
             "recreate_as_if_never_existed", "child_create_over_parent_reindexes", "child_create_over_parent_no_trace",
-            "child_create_empty_name_rejected", "rc_and_child_links_no_trace", "cascade_witness", "cycle_witness", "extended_child_witness", "self_link_witness", "naming_variant_witness"]
+            "child_create_empty_name_rejected", "rc_and_child_links_no_trace", "cascade_witness", "cycle_witness", "extended_child_witness", "self_link_witness", "naming_variant_witness", "chief_witness"]
 
 A_IDS = {"61", "62", "63", "64", "65"}
 
@@ -90,10 +91,12 @@ RULE = ("random histories (seeded) of 6-25 (quick) / 6-41 (thorough) transaction
         "(3 ids); every third history under the naming variant of the schema (case prefix h1: symbol name, stored key and "
         "caller-side checker name of name / alias differ, roles and colour have their own checker names; patches name fields "
         "by the caller-side names): create A / create through A1 with 0-2 child-owned links / create through A2 with a colour (a fifth resp. "
-        "a quarter of the child-store creates over an existing parent) / update and patch through A (20 checker subsets of "
-        "name, alias, roles, owner, dep, groups, boss) and through A2 (12 subsets incl. colour; a tenth without ext2 data) / "
+        "a quarter of the child-store creates over an existing parent) / update and patch through A (23 checker subsets of "
+        "name, alias, roles, owner, dep, groups, boss, chief) and through A2 (12 subsets incl. colour; a tenth without ext2 data) / "
         "delete through A, A1 or A2 / boss self references: half of the written entities name a boss (an existing entity, "
-        "itself, rarely a missing one), so chains, self loops and longer cycles arise and deletes cascade over them; "
+        "itself, rarely a missing one), so chains, self loops and longer cycles arise and deletes cascade over them; a quarter "
+        "name a chief (restricting self reference: another entity sorting before or after, or the entity itself), so deletes "
+        "are refused while referenced and after the chief fields are patched away they pass; "
         "1 transaction in 16 is 'delete x, create x again under boss y, delete y' / ref-counted link increments, "
         "decrements and SetLinkCount 0-3 (10 % of the operations) / AddLinks, RemoveLinks, SetLinks on A.peers (A linked "
         "with itself through one symbol; a third of the key lists contain the entity itself) and SetLinks on A.mentors (two "
@@ -119,4 +122,5 @@ ASSUMPTIONS = [
 def run(ctx, replay_cases=None):
     return lib.history_flow(ctx, "c06", MODULE, THEOREMS, MATCHERS, RULE, stats_of, nontrivial, ASSUMPTIONS,
                             common.BASE_TRUST + ["bbolt (ordered buckets, atomic commit/rollback) — modelled, exercised by the dump comparison after every transaction"],
-                            extra_cmp=extra_cmp, replay_cases=replay_cases)
+                            extra_cmp=extra_cmp, replay_cases=replay_cases,
+                            post_cases=lambda c: universe.universe_stream(c, ["C06"]))
